@@ -1,6 +1,6 @@
 (** C19 - Streamed task output reads back complete, in order, and only from the last run.
     Only statements closed by [exact]; the proofs live in HQ.Stream.{Codec,Index,Runs,Proofs,Examples}. *)
-From HQ Require Import Base.Prelude Gen.Consts Stream.Model Stream.Codec Stream.Index Stream.Runs Stream.Proofs Stream.Examples.
+From HQ Require Import Base.Prelude Gen.Consts Stream.Model Stream.Codec Stream.Index Stream.Runs Stream.Proofs Stream.Examples Stream.FullSup Stream.FullSupMain Stream.FullFin Stream.FullFinMain.
 Open Scope N_scope.
 
 (** Round trip.  For every directory of complete writer files [ws] (any number of files, ANY order
@@ -97,6 +97,11 @@ Theorem C19_superseded_separate_partial : forall u bs fs job task ch,
     /\ read_channel lg job task ch = spec_read fs (job, task) ch.
 Proof. exact reader_spec. Qed.
 
+(** ... and the full statement holds. *)
+Theorem C19_superseded_full_holds : C19_superseded_full.
+Proof. exact superseded_full. Qed.
+Definition C19_superseded_full_example := superseded_full_example.
+
 (** Codec laws. *)
 Theorem C19_codec_chunk_header : forall h rest,
   header_ok h = true ->
@@ -128,6 +133,25 @@ Theorem C19_finished_outside_F20_partial : forall orig fs k i,
   count_inst k i (all_seen orig) <= count_inst k i (all_complete fs).
 Proof. exact finished_outside_f20. Qed.
 
+(** ... and no BYTE: outside the class F20, for a directory [fs] obtained from the written one [orig]
+    by cutting files at arbitrary bytes / losing files ([cut_dir]), a stream reported finished
+    reads back exactly the bytes written for the reported instance, per channel. *)
+Theorem C19_finished_outside_F20_bytes : forall u bs orig fs job task ch lg R,
+  Forall2 file_repr bs fs -> Forall (fun a => fh_uid (af_hdr a) = u) fs ->
+  cut_dir orig fs ->
+  last_contig fs (job, task) = true -> ch < 2 ->
+  open (hqs_ents bs) None = ROk lg ->
+  gather (lg_index lg) job task = ROk R -> in_fin R = true ->
+  f20_class orig fs (job, task) = false ->
+  max_inst (job, task) (all_seen fs) = Some (in_id R)
+  /\ filter (of_inst (job, task) (in_id R)) (all_seen orig)
+     = filter (of_inst (job, task) (in_id R)) (all_complete fs)
+  /\ existsb (of_inst (job, task) (in_id R)) (torn_recs fs) = false
+  /\ read_channel lg job task ch = ROk (spec_bytes (job, task) (in_id R) ch (all_complete orig))
+  /\ cat lg job task ch false = ROk (spec_bytes (job, task) (in_id R) ch (all_complete orig)).
+Proof. exact finished_outside_f20_bytes. Qed.
+Definition C19_finished_bytes_example := finished_bytes_example.
+
 (** Non-vacuity. *)
 Theorem C19_example_hyps :
   Forall wf_ok [wB; wA] /\ last_contig (map wf_afile [wB; wA]) (1, 0) = true
@@ -149,3 +173,7 @@ Print Assumptions C19_codec_file_header_prefix.
 Print Assumptions C19_finished_complete_refuted.
 Print Assumptions C19_finished_outside_F20_partial.
 Print Assumptions C19_example_hyps.
+Print Assumptions C19_superseded_full_holds.
+Print Assumptions C19_superseded_full_example.
+Print Assumptions C19_finished_outside_F20_bytes.
+Print Assumptions C19_finished_bytes_example.
